@@ -16,6 +16,14 @@ ASSUMPTIONS = ["header timestamp line excluded (library-level text compared)"]
 
 
 def gen_case(rng):
+    if rng.random() < 0.1:
+        # literal values (and keys) that a case-insensitive or otherwise non-injective sort key would tie
+        from .. import gen
+        vals = rng.sample(gen.CASEPOOL, k=rng.randint(3, 6))
+        samples = [{"status": v, "n": i, "Status": i, "STATUS": i} for i, v in enumerate(vals)]
+        job = common.gen_job(rng, fw=rng.choice(["pydantic", "dataclasses", "base"]))
+        job.update({"maxLit": rng.choice([10, 16]), "preamble": None})
+        return {"inputs": [["Root", samples]], "cmps": [["percent", 7, 10], ["number", 10]], "job": job}
     inputs = common.gen_inputs(rng, styled_p=0.15, max_models=2)
     cmps = common.cmps_choice(rng)
     job = common.gen_job(rng)
